@@ -70,6 +70,11 @@ CLAIMED = {
   "Trusted: go/ssa, gosym interpreter, z3; real bb-storage buffer/digest-set/errgroup/semaphore code interpreted; proto.Marshal structural model. Outside the claim: the decorator order itself is read from main.go by hand (assumption), real gRPC BlobAccess, metrics decorators between the layers, more than 3 blobs, context cancellation during the flush.",
   "symbolic execution of go/ssa over all fault positions of a bounded upload sequence (boolean fault variables forked without solver, data-dependent branches by z3), native replay",
   "DESIGN.md §4 C09"),
+ "C10": (
+  "Reduced claim, bounded symbolic execution of the real code (output_hierarchy.go with the real bb-storage path parser interpreted): (1) NewOutputHierarchy/lookup for every working directory and pair of output paths out of a curated list of 14 strings (empty, '.', '..', 'a/..', 'a//b', './a', 'a/b/../..', escaping forms ...): compared with an independent resolver -- escaping paths are rejected with INVALID_ARGUMENT, root-resolving paths go to the root list, aliases share a node and keep both strings, nothing else is recorded; (2) UploadOutputs for one declared location of every kind (file, directory, symlink, missing, special file, stat error; executable bit symbolic; one or two declared strings): listed in exactly the right OutputFiles/OutputDirectories/OutputSymlinks list under the declared strings with digest/bit/target, missing => absent without error, special/IO error => error; (3) Tree construction for directory shapes of <=4 directories including identical subdirectories: root first, every distinct directory exactly once, parents before children, declared topologically sorted; (4) CreateParentDirectories creates every parent of every declared output; entered directories are always closed. The code has almost no arithmetic: the solver only decides the symbolic executable bit; everything else is exhaustive enumeration of the listed finite sets by the same engine.",
+  "Trusted: go/ssa, gosym interpreter; proto.Marshal is a structural (injective) model, SHA-256 a mixing model. Outside the claim (most of the property's 'for all'): arbitrary path strings and output lists, deep/wide trees, real protobuf wire bytes, naive_build_directory.go and virtual_build_directory.go, special files inside output directories, upload failures.",
+  "symbolic execution of go/ssa with exhaustive enumeration over curated finite input sets (little for the solver to decide; stated as a reduced claim)",
+  "DESIGN.md §4 C10"),
 }
 
 PENDING_REASON = "check not registered yet (framework under construction; see DESIGN.md §6 build order)"
